@@ -359,15 +359,40 @@ class _Retrieval(Entry):
         return [self.batch_val(cfg, b) for b in batches]
 
 
+_variant_cache: dict = {}
+
+
+def retrieval_variant(name):
+    """Which variant of the class the tree under test implements: "asis" (defects D3/D4 present) or
+    "fixed" (fixes/retrieval-*.patch applied).  Detected on the real code, once per process; the
+    chosen Coq model must then pass the full state-level correspondence like any other."""
+    if name not in _variant_cache:
+        if name == "RetrievalPrecision":
+            m = M.RetrievalPrecision(k=1, empty_target_action="pos")
+            m.update(torch.tensor([0.9, 0.1]), torch.tensor([0, 1]))
+            _variant_cache[name] = "asis" if float(m.compute()[0]) == 1.0 else "fixed"
+        else:
+            _variant_cache[name] = "fixed" if "num_relevant" in M.RetrievalRecall()._state_name_to_default else "asis"
+    return _variant_cache[name]
+
+
 class RetrievalPrecisionE(_Retrieval):
-    name, cls, model = "RetrievalPrecision", M.RetrievalPrecision, "rk_rprec"
+    name, cls = "RetrievalPrecision", M.RetrievalPrecision
     class_spec_model = "rk_rprec_class_spec"
+
+    @property
+    def model(self):
+        return "rk_rprec" if retrieval_variant(self.name) == "asis" else "rk_rprec_fixed"
 
 
 class RetrievalRecallE(_Retrieval):
-    name, cls, model = "RetrievalRecall", M.RetrievalRecall, "rk_rrecall"
+    name, cls = "RetrievalRecall", M.RetrievalRecall
     class_spec_model = "rk_rrecall_class_spec"
     recall = True
+
+    @property
+    def model(self):
+        return "rk_rrecall" if retrieval_variant(self.name) == "asis" else "rk_rrecall_fixed"
 
 
 ENTRIES = [HitRateE(), ReciprocalRankE(), ClickThroughRateE(), WeightedCalibrationE(),
